@@ -41,7 +41,7 @@ REACH = [("yamlpath/commands/yaml_get.py", "main,validateargs", "yaml_get.main")
          ("yamlpath/commands/yaml_validate.py", "main,process_file", "yaml_validate.main"),
          ("yamlpath/common/parsers.py", "get_yaml_data,get_yaml_multidoc_data,jsonify_yaml_data", "Parsers")]
 SIZES = {"quick": dict(cases=30000, sub=160), "thorough": dict(cases=250000, sub=1500)}
-REQUIRED_COUNTERS = ["merge_one_multidoc_input_cases", "diff_scalar_root_cases", "get_cases", "set_cases", "merge_cases", "diff_cases", "validate_cases", "stdin_cases",
+REQUIRED_COUNTERS = ["get_docs_ending_in_block_scalar", "set_saveto_cases", "merge_one_multidoc_input_cases", "diff_scalar_root_cases", "get_cases", "set_cases", "merge_cases", "diff_cases", "validate_cases", "stdin_cases",
                      "json_cases", "subprocess_cases"]
 
 
@@ -152,8 +152,18 @@ def case_get(ctx, rng, box, sub):
         data = yp.load(text)
     except yp.LoadError:
         return
+    tail_block = None
+    if _style == "block" and isinstance(data, dict) and len(data) and "zlast" not in data and rng.random() < 0.12:
+        # the document ENDS in a block scalar: its final line break(s) are data
+        tail_block = rng.choice(["|\n  hello\n  world\n", ">\n  folded\n  text\n", "|+\n  keep\n\n\n", "|-\n  strip\n", "|\n  one\n"])
+        text = text.rstrip("\n") + "\nzlast: " + tail_block
+        try:
+            data = yp.load(text)
+        except yp.LoadError:
+            return
+        ctx.counters["get_docs_ending_in_block_scalar"] = ctx.counters.get("get_docs_ending_in_block_scalar", 0) + 1
     pg = gp.PathGen(rng, gp.doc_vocab(data), keywords=rng.random() < 0.2)
-    segs = pg.path()
+    segs = pg.path() if tail_block is None or rng.random() < 0.3 else [("KEY", "zlast")]
     sep = rng.choice([".", "/"])
     try:
         path = gp.render(segs, sep)
@@ -161,13 +171,13 @@ def case_get(ctx, rng, box, sub):
         return
     if path.startswith("-"):
         return
-    as_json = rng.random() < 0.2 and data is not None and jsonable(data)
+    as_json = rng.random() < 0.2 and data is not None and jsonable(data) and tail_block is None
     src = to_json_text(data) if as_json else text
     if as_json:
         data = yp.load(src)
         ctx.counters["json_cases"] = ctx.counters.get("json_cases", 0) + 1
     exp = expect_get_lines(data, path) if data is not None else ("NOMATCH",)
-    via_stdin = rng.random() < 0.3
+    via_stdin = rng.random() < (0.6 if tail_block else 0.3)
     case = {"tool": "yaml-get", "doc": src, "path": path, "stdin": via_stdin}
     argv = ["-p", path]
     if via_stdin:
@@ -266,7 +276,22 @@ def case_set(ctx, rng, box, sub):
             exp_err = True
         else:
             argv += ["-a", value]
-            Processor(LOG, twin).set_value(path, value, value_format="default", mustexist=False)
+            if op == "set" and isinstance(twin, dict) and "bak_zz" not in twin and rng.random() < 0.3:
+                # --saveto: the OLD value is kept under a new key (and must stay the old value after the change)
+                import copy as _copy
+                olds = list(Processor(LOG, twin).get_nodes(path, mustexist=True))
+                if len(olds) == 1 and not yp.is_container(olds[0].node):
+                    argv += ["-s", "bak_zz" if sep == "." else "/bak_zz"]
+                    saved = _copy.deepcopy(olds[0].node)
+                    if hasattr(saved, "anchor") and yp.anchor_of(saved):
+                        saved.yaml_set_anchor(None)
+                    Processor(LOG, twin).set_value(path, value, value_format="default", mustexist=False)
+                    twin["bak_zz"] = saved
+                    ctx.counters["set_saveto_cases"] = ctx.counters.get("set_saveto_cases", 0) + 1
+                else:
+                    Processor(LOG, twin).set_value(path, value, value_format="default", mustexist=False)
+            else:
+                Processor(LOG, twin).set_value(path, value, value_format="default", mustexist=False)
     except YAMLPathException:
         exp_err = True
     except Exception:
